@@ -255,7 +255,7 @@ CHECKS = {
         "level": "exploration",
         "manifest": {
             "technique": "model-based stateful property testing (rapid) of hub/connection histories against a reference model at every quiescent point, plus concurrent histories under the race detector with delivery and invariant oracles",
-            "level_text": "White-box (test files overlaid into pkg/websocket, no source change): a real Hub runs its loop; up to 6 Connections over real gorilla sockets, 1-3 rooms, MaxConnectionsPerHub in {0,2,3,4,100}, MaxConnectionsPerRoom in {0..3}, queue size in {1,2,3,8}, drop_oldest/drop_newest (block in the concurrent unit). Histories of up to 30 operations: connect (hub.register), disconnect (through the unregister channel as ReadPump does, or Connection.Close), operations from outside goroutines (JoinRoom, LeaveRoom, Send, Hub.Broadcast, Hub.BroadcastToRoom, RoomManager.BroadcastToRoom, also on already disconnected connections), messages whose handler runs inside the hub loop and performs join/leave/send/broadcast/room broadcast/close through the VMHandler adapter exactly as a compiled GlyphLang handler does, on-connect and on-disconnect handlers doing the same, and drains of a connection's queue. After every operation the hub is brought to quiescence (barrier event through the loop, all hub channels empty) and compared with the model: registration, each live connection's GetRooms against Room.Has in every room and against the model, room sizes and hub size against the limits, no unregistered connection in any room, and each drained queue equal to the model's queue (message by message, including the backpressure strategy). A hub-loop panic, a panic in a caller, or a barrier that does not return within 10 s (deadlock) are violations. Concurrent unit: 2-6 goroutines issue such operations simultaneously while a drainer plays the WritePumps and a monitor samples the limits; afterwards the same quiescent invariants, no duplicate delivery, direct messages only to their addressee, room messages only to connections that join that room somewhere in the history; every race-detector report is a violation. Storm unit: 3-8 registered connections run short join/leave scripts on rooms of capacity 1-3 simultaneously from a start barrier, 150 rounds per case (schedule exploration by repetition); after every round no room is over capacity and every connection's IsInRoom agrees with Room.Has.",
+            "level_text": "White-box (test files overlaid into pkg/websocket, no source change): a real Hub runs its loop; up to 6 Connections over real gorilla sockets, 1-3 rooms, MaxConnectionsPerHub in {0,2,3,4,100}, MaxConnectionsPerRoom in {0..3}, queue size in {1,2,3,8}, drop_oldest/drop_newest (block in the concurrent unit). Histories of up to 30 operations: connect (hub.register), disconnect (through the unregister channel as ReadPump does, or Connection.Close), operations from outside goroutines (JoinRoom, LeaveRoom, Send, Hub.Broadcast, Hub.BroadcastToRoom, RoomManager.BroadcastToRoom, also on already disconnected connections), messages whose handler runs inside the hub loop and performs join/leave/send/broadcast/room broadcast/close through the VMHandler adapter exactly as a compiled GlyphLang handler does, on-connect and on-disconnect handlers doing the same, and drains of a connection's queue. After every operation the hub is brought to quiescence (barrier event through the loop, all hub channels empty) and compared with the model: registration, each live connection's GetRooms against Room.Has in every room and against the model, room sizes and hub size against the limits, no unregistered connection in any room, and each drained queue equal to the model's queue (message by message, including the backpressure strategy). A hub-loop panic, a panic in a caller, or a barrier that does not return within 10 s (deadlock) are violations. Concurrent unit: 2-6 goroutines issue such operations simultaneously while a drainer plays the WritePumps and a monitor samples the limits; afterwards the same quiescent invariants, no duplicate delivery, direct messages only to their addressee, room messages only to connections that join that room somewhere in the history; every race-detector report is a violation. Wire unit: 1-5 real clients dial Server.HandleWebSocketWithPattern over loopback sockets (ReadPump/WritePump running, heartbeat on or off, hub limit 0/2/3/100, room limit 0-2) and run scripts of join_room / leave_room / room broadcast / broadcast / ping / close through the default protocol handlers, waiting for the server's confirmation of each join and leave; a room message that arrives while the server has confirmed the client is not in that room, or that is echoed to its sender, is a violation; afterwards hub size equals the number of open clients and never exceeds the limit, views equal memberships, no room lists an unregistered connection, and Hub.Shutdown returns. Storm unit: 3-8 registered connections run short join/leave scripts on rooms of capacity 1-3 simultaneously from a start barrier, 150 rounds per case (schedule exploration by repetition); after every round no room is over capacity and every connection's IsInRoom agrees with Room.Has.",
             "level_note": "A broadcast that finds a connection's queue full either drops the message or drops the connection; the model adopts whichever the hub chose. Handlers are generated with at most one queued (deferred) action, last in the handler, because the hub picks among its ready channels at random and two pending actions have no defined order. The rooms a connection lists after it was disconnected are not compared (they are kept on purpose for reconnection state). RoomManager.DeleteRoom/Clear are not part of the property's operation list and are not generated.",
         },
         "rule": ("a case is a history of hub/connection operations; non-trivial = some connection was disconnected or rejected, a join met a full room or a send met a full queue (sequential), or >= 2 goroutines (concurrent); distinct = hash of the case"),
@@ -263,6 +263,7 @@ CHECKS = {
         "units": [
             {"name": "c16-model", "bin": "websocket", "build": "inpkg:pkg/websocket", "run": "^TestC16Model$", "quick": 8000, "thorough": 600000, "gomaxprocs": 4, "shrinktime": "20s"},
             {"name": "c16-conc", "bin": "websocket", "build": "inpkg:pkg/websocket", "run": "^TestC16Conc$", "race": True, "quick": 2000, "thorough": 100000, "gomaxprocs": 4, "shrinktime": "20s"},
+            {"name": "c16-wire", "bin": "websocket", "build": "inpkg:pkg/websocket", "run": "^TestC16Wire$", "quick": 600, "thorough": 30000, "gomaxprocs": 4, "shrinktime": "20s"},
             {"name": "c16-storm", "bin": "websocket", "build": "inpkg:pkg/websocket", "run": "^TestC16Storm$", "quick": 700, "thorough": 40000, "gomaxprocs": 8, "shrinktime": "20s", "shards": 7},
         ],
     },
